@@ -6,12 +6,19 @@ per-lag origin counts, the normalised correlation (exact rational and Real term)
 axis (term).  Every case is replayed into the real time_correlation (float / complex arrays of
 shape (T,N), (T,N,d), (T,N,d,d)); both columns of the returned frame are compared, lag zero must
 be exactly 1.0, and the CSV (when requested) must be the returned frame to the written precision.
+Representations: the spec states per series which integer storage types hold it (and whether element-wise
+products / particle sums of the pairs the definition uses leave the type's range) and in which binary floating
+types the evaluation is exact; the harness renders the series in those types (bool, int8 .. int64, float16,
+float32, complex64), in Fortran order, as a strided view, read-only, with an integer dt and numpy-typed
+timestep labels - the expectation is the same number.  Parts "rep" (narrow-type value sets, wide N) and
+"long" (T = 257..1100, terminal loop state stated directly from the definition) widen the scope in size.
 Direction B: seeded random decimal series (T <= 20, N <= 6, all ranks, real and complex, even and
 uneven timesteps) are run through the real code; TraceTimeCorr.tla carries the loop state per
 record, decides the discrete observables (row count, integer time axis, lag zero = 1) and prints
 the expected correlation as terms that the generic evaluator evaluates.
 Python renders inputs, calls the API, evaluates terms and compares; it holds no definition.
 """
+import collections
 import csv
 import json
 import zlib
@@ -35,12 +42,16 @@ PROPS = ["EveryOriginLagPairOnce"]
 # rendering of abstract inputs
 # --------------------------------------------------------------------------
 
-def make_snapshots(ts, N, ndim=2):
+TS_TYPES = {"int": int, "int64": np.int64, "int32": np.int32}
+
+
+def make_snapshots(ts, N, ndim=2, ts_type="int"):
     from PyMatterSim.reader.reader_utils import SingleSnapshot, Snapshots
     snaps = []
+    conv = TS_TYPES[ts_type]
     for t in ts:
         snaps.append(SingleSnapshot(
-            timestep=int(t), nparticle=N, particle_type=np.ones(N, dtype=int),
+            timestep=conv(t), nparticle=N, particle_type=np.ones(N, dtype=int),
             positions=np.zeros((N, ndim)), boxlength=np.full(ndim, 10.0),
             boxbounds=np.array([[0.0, 10.0]] * ndim), realbounds=None,
             hmatrix=np.diag(np.full(ndim, 10.0))))
@@ -59,22 +70,58 @@ def make_condition(val, cplx, scale):
     return out
 
 
-def narrow_int(a):
-    """the same integer values in the narrowest signed integer dtype in which every value AND every product of
-    two values is representable (element-wise arithmetic in that dtype is exact; only sums over particles,
-    origins or components can exceed it): 0/1 flags as int8, small counts as int8 / int16"""
-    m = int(np.max(np.abs(a))) if a.size else 0
-    for dt, lim in ((np.int8, 11), (np.int16, 181), (np.int32, 46340)):
-        if m <= lim:
-            return np.array(a, dtype=dt)
-    return np.array(a, dtype=np.int64)
+NP_TYPES = {"bool": np.bool_, "int8": np.int8, "uint8": np.uint8, "int16": np.int16, "uint16": np.uint16,
+            "int32": np.int32, "int64": np.int64, "float16": np.float16, "float32": np.float32,
+            "complex64": np.complex64}
+LAYOUTS = ("F", "strided", "readonly")
 
 
-def call_api(api, ts, N, cond, dt, outputfile=""):
-    snaps = make_snapshots(ts, N)
+def variants_of(case):
+    """representations of the series the SPEC admits: integer types that hold it (with what leaves their range),
+    floating types in which the evaluation is exact; memory layouts of the float array."""
+    out = []
+    for r in case.get("ireps", []):
+        stress = "products-leave-dtype" if r["prod"] else "sums-leave-dtype" if r["sum"] else "in-range"
+        out.append({"dtype": r["dt"], "stress": stress})
+    for f in case.get("freps", []):
+        out.append({"dtype": f, "stress": "exact-in-type"})
+    return out
+
+
+def build_cond(val, cplx, scale, var=None):
+    """render the abstract series; var = {"dtype": name} | {"layout": name} | None (float64 / complex128)"""
+    cond = make_condition(val, cplx, scale)
+    if not var:
+        return cond
+    if "dtype" in var:
+        if scale != 1:
+            raise MachineryError("typed rendering at a scale other than 1")
+        out = cond.astype(NP_TYPES[var["dtype"]])
+        if not np.array_equal(out.astype(cond.dtype), cond):
+            raise MachineryError(f"the spec says {var['dtype']} holds the series but the values do not survive the cast")
+        return out
+    lay = var["layout"]
+    if lay == "F":
+        return np.asfortranarray(cond)
+    if lay == "strided":                       # every other particle slot of a larger array
+        big = np.zeros((cond.shape[0], 2 * cond.shape[1] + 1) + cond.shape[2:], dtype=cond.dtype)
+        view = big[:, 1::2]
+        view[...] = cond
+        if view.flags["C_CONTIGUOUS"] and cond.shape[1] > 1:
+            raise MachineryError("strided view came out contiguous")
+        return view
+    if lay == "readonly":
+        out = cond.copy()
+        out.setflags(write=False)
+        return out
+    raise MachineryError(f"unknown layout {lay}")
+
+
+def call_api(api, ts, N, cond, dt, outputfile="", ts_type="int"):
+    snaps = make_snapshots(ts, N, ts_type=ts_type)
     with warnings.catch_warnings():
         warnings.simplefilter("ignore")
-        if dt == 0.002 and not outputfile:
+        if isinstance(dt, float) and dt == 0.002 and not outputfile:
             return api(snaps, cond)          # the documented default time step
         return api(snaps, cond, dt=dt, outputfile=outputfile)
 
@@ -91,28 +138,61 @@ def project(df):
 # direction A
 # --------------------------------------------------------------------------
 
-def replay_case(chk, case, api, scale=1, csvdir=None, verbose=False):
-    T, N = case["T"], case["N"]
-    dt = case["dt"][0] / case["dt"][1]
-    cond = make_condition(case["val"], case["cplx"], scale)
-    brief = {k: case[k] for k in ("T", "N", "rank", "dim", "cplx", "ts", "dt", "val", "kind")}
-    brief["scale"] = scale
-    # representation: integer-valued real scalar / vector series also as narrow integer arrays (every third such case)
-    if (not case["cplx"]) and scale == 1 and case["rank"] <= 1 and np.array_equal(cond, np.rint(cond)) \
-            and zlib.crc32(json.dumps(case["val"]).encode()) % 3 == 0:
-        cond = narrow_int(cond)
-        brief["dtype"] = cond.dtype.name
+def renderings(case, part, scale):
+    """the renderings of one emitted case: list of (scale, var, ts_type, dt_int).  Which representations are
+    admissible is the spec's statement (ireps / freps / dtInt); which of them a case gets is a hash of its values."""
+    h = zlib.crc32(json.dumps([case["val"], case["ts"]], separators=(",", ":")).encode())
+    typed = variants_of(case)
+    layouts = [{"layout": lay} for lay in LAYOUTS]
+    ts_types = ["int", "int64"] + (["int32"] if max(case["ts"]) < 2 ** 31 else [])
+    ts_type = ts_types[(h >> 3) % len(ts_types)]
+    dt_int = bool(case.get("dtInt")) and (h >> 5) % 2 == 0
+    base = (scale, None, ts_type, dt_int)
+    if part in ("fam", "exh"):
+        # one rendering per case: every other case at scale 1 in one of its representations
+        if scale == 1 and h % 2 == 0:
+            pool = typed + layouts
+            return [(1, pool[(h >> 7) % len(pool)], ts_type, dt_int)]
+        return [base]
+    if part == "long":                # long series: the float rendering, one typed one and one layout
+        out = [base]
+        if typed:
+            out.append((1, typed[(h >> 7) % len(typed)], "int", False))
+        out.append((scale, layouts[(h >> 9) % len(layouts)], "int", False))
+        return out
+    # representations part: every type the spec admits, and one layout
+    return [base] + [(1, v, ts_type, dt_int) for v in typed] + [(scale, layouts[(h >> 9) % len(layouts)], "int", False)]
+
+
+def replay_case(chk, case, api, scale=1, csvdir=None, verbose=False, part="fam", stats=None):
     expected = [ev(t) for t in case["corrT"]]
     texp = [ev(t) for t in case["tT"]]
     for k, r in enumerate(case["corr"]):       # the spec's two forms of the same number agree
         if not close(expected[k], r[0] / r[1], 1e-12, 1e-12):
             raise MachineryError("term and exact rational disagree in an emitted case")
+    ok = True
+    for j, (sc, var, ts_type, dt_int) in enumerate(renderings(case, part, scale)):
+        if stats is not None and var and "dtype" in var:
+            stats[(var["dtype"], var["stress"], case["rank"], case["kind"] if case["T"] > 1 else "single")] += 1
+        ok = replay_one(chk, case, api, expected, texp, sc, var, ts_type, dt_int,
+                        csvdir if j == 0 else None, verbose) and ok
+    return ok
+
+
+def replay_one(chk, case, api, expected, texp, scale, var, ts_type, dt_int, csvdir=None, verbose=False):
+    T, N = case["T"], case["N"]
+    dt = case["dt"][0] if dt_int else case["dt"][0] / case["dt"][1]
+    cond = build_cond(case["val"], case["cplx"], scale, var)
+    brief = {k: case[k] for k in ("T", "N", "rank", "dim", "cplx", "ts", "dt", "val", "kind")}
+    brief.update(scale=scale, var=var, ts_type=ts_type, dt_int=dt_int)
+    # the clause names the representation: storage type and what leaves its range / layout
+    tag = "" if not var else (":" + var["dtype"] + ":" + var["stress"] if "dtype" in var else ":layout-" + var["layout"])
     outfile = os.path.join(csvdir, "tc.csv") if csvdir else ""
     before = cond.copy()
     try:
-        df = call_api(api, case["ts"], N, cond, dt, outfile)
+        df = call_api(api, case["ts"], N, cond, dt, outfile, ts_type)
     except Exception as e:  # the library raising on a valid input is a violation
-        chk.violation(f"raises:{type(e).__name__}", {"dir": "A", "case": brief, "error": str(e)[:300]})
+        chk.violation(f"raises:{type(e).__name__}" + tag, {"dir": "A", "case": brief, "error": str(e)[:300]})
         return False
     tobs, cobs, cols = project(df)
     info = {"dir": "A", "case": brief, "expected_corr": expected, "expected_t": texp,
@@ -120,35 +200,35 @@ def replay_case(chk, case, api, scale=1, csvdir=None, verbose=False):
     if verbose:
         print(json.dumps(info, indent=1))
     if tobs is None:
-        chk.violation("Columns", {**info, "columns": cols})
+        chk.violation("Columns" + tag, {**info, "columns": cols})
         return False
     if not np.array_equal(before, cond, equal_nan=True):
-        chk.violation("InputUnchanged", info)
+        chk.violation("InputUnchanged" + tag, info)
         return False
     if len(cobs) != T:
-        chk.violation("Rows", info)
+        chk.violation("Rows" + tag, info)
         return False
     for k in range(T):
         if not close(tobs[k], texp[k]):
-            chk.violation("TimeAxis", {**info, "lag": k})
+            chk.violation("TimeAxis" + tag, {**info, "lag": k})
             return False
     if cobs[0] != 1.0:
-        chk.violation("LagZeroIsOne", info)
+        chk.violation("LagZeroIsOne" + tag, info)
         return False
     for k in range(T):
         if not close(cobs[k], expected[k]):
-            chk.violation("AlgorithmEqualsDefinition:" + case["kind"], {**info, "lag": k})
+            chk.violation("AlgorithmEqualsDefinition:" + case["kind"] + tag, {**info, "lag": k})
             return False
     if csvdir:
         with open(outfile) as f:
             rows = list(csv.reader(f))
         if rows[0] != ["t", "time_corr"] or len(rows) != T + 1:
-            chk.violation("CSV", {**info, "csv": rows[:3]})
+            chk.violation("CSV" + tag, {**info, "csv": rows[:3]})
             return False
         for k in range(T):
             if abs(float(rows[k + 1][0]) - tobs[k]) > 0.5e-8 + 1e-12 or \
                abs(float(rows[k + 1][1]) - cobs[k]) > 0.5e-8 + 1e-12:
-                chk.violation("CSV", {**info, "csv_row": rows[k + 1], "lag": k})
+                chk.violation("CSV" + tag, {**info, "csv_row": rows[k + 1], "lag": k})
                 return False
     return True
 
@@ -388,7 +468,9 @@ def run(tier, replay=None):
         nsh = 8
         kinds = {"linear": 0, "log": 0}
         conj = 0
-        for part in ("fam", "exh"):
+        stats = collections.Counter()
+        sizes = {"maxT": 0, "maxN": 0, "long_linear": 0, "long_log": 0, "wide": 0}
+        for part in ("fam", "exh", "rep", "long"):
             r = run_tlc_sharded("MC_TimeCorr",
                                 dict(constants={"Tier": tier, "Part": part, "SEED": common.SEED},
                                      invariants=INVS, properties=PROPS),
@@ -399,19 +481,49 @@ def run(tier, replay=None):
                 raise MachineryError("no cases emitted")
             for j, case in enumerate(r.cases):
                 scale = (1, 8, 10)[j % 3]
-                ok = replay_case(chk, case, api, scale=scale, csvdir=csvdir if j % 7 == 0 else None)
+                ok = replay_case(chk, case, api, scale=scale, csvdir=csvdir if j % 7 == 0 else None,
+                                 part=part, stats=stats)
+                sizes["maxT"] = max(sizes["maxT"], case["T"])
+                sizes["maxN"] = max(sizes["maxN"], case["N"])
+                if case["T"] > 255:
+                    sizes["long_" + case["kind"]] += 1
+                if case["N"] > 255:
+                    sizes["wide"] += 1
                 if case["T"] > 1:
                     kinds[case["kind"]] += 1
                 conj += int(case["conjMatters"])
                 if ok:
+                    small = case["T"] <= 8
                     chk.ok(("A", part, j), nontrivial=case["T"] > 1,
-                           sample={"T": case["T"], "rank": case["rank"], "cplx": case["cplx"], "ts": case["ts"],
-                                   "kind": case["kind"], "counts": case["counts"], "corr": case["corr"]})
+                           sample={"T": case["T"], "N": case["N"], "rank": case["rank"], "cplx": case["cplx"],
+                                   "ts": case["ts"] if small else case["ts"][:3] + ["..."] + case["ts"][-2:],
+                                   "kind": case["kind"], "counts": case["counts"] if small else "T-k" if case["kind"] == "linear" else "1",
+                                   "corr": case["corr"] if small else "terms", "ireps": case["ireps"], "freps": case["freps"]})
         chk.exhaustive = True
         chk.extra["cases_by_kind_T>=2"] = kinds
         chk.extra["cases_where_conjugate_is_observable"] = conj
         if kinds["linear"] == 0 or kinds["log"] == 0 or conj == 0:
             raise MachineryError("scope is vacuous: a sampling kind or the conjugate is never exercised")
+        # non-vacuity of the representation scope: for every narrow integer type, every rank and both sampling kinds
+        # some rendered series has particle / component sums outside the type (products inside) and some has
+        # products outside; bool: sums outside; the exact floating types are rendered in every branch
+        missing = []
+        for rank in (0, 1, 2):
+            for kind in ("linear", "log"):
+                for ty in ("int8", "uint8", "int16", "uint16"):
+                    for stress in ("sums-leave-dtype", "products-leave-dtype"):
+                        if stats[(ty, stress, rank, kind)] == 0:
+                            missing.append((ty, stress, rank, kind))
+                for ty, stress in (("bool", "sums-leave-dtype"), ("float32", "exact-in-type"), ("float16", "exact-in-type"),
+                                   ("complex64", "exact-in-type"), ("int64", "in-range")):
+                    if stats[(ty, stress, rank, kind)] == 0:
+                        missing.append((ty, stress, rank, kind))
+        if missing:
+            raise MachineryError(f"representation scope is vacuous for {missing[:6]} ({len(missing)} combinations)")
+        if sizes["long_linear"] == 0 or sizes["long_log"] == 0 or sizes["wide"] == 0:
+            raise MachineryError(f"size scope is vacuous: {sizes}")
+        chk.extra["typed_renderings"] = {"|".join(map(str, k)): v for k, v in sorted(stats.items(), key=str)}
+        chk.extra["sizes"] = sizes
     finally:
         shutil.rmtree(csvdir, ignore_errors=True)
 
